@@ -25,16 +25,20 @@ fn merge_preserve_order<'a, T: Clone + PartialEq>(a: &'a [T], b: &'a [T]) -> std
 	while ai.peek().is_some() || bi.peek().is_some() {
 		let mut no_change = true;
 
+		// an element both sides have next: take it once, advance both sides
 		while let Some(x) = ai.next_if(|x| bi.peek().is_some_and(|b| b == x)) {
+			bi.next();
 			r.push(x);
 			no_change = false;
 		}
 
+		// elements only `a` has
 		while let Some(x) = ai.next_if(|x| !b.contains(x)) {
 			r.push(x);
 			no_change = false;
 		}
-		while let Some(x) = bi.next_if(|x| !b.contains(x)) {
+		// elements only `b` has
+		while let Some(x) = bi.next_if(|x| !a.contains(x)) {
 			r.push(x);
 			no_change = false;
 		}
